@@ -270,9 +270,14 @@ func (ex *Exec) binop(s *State, fr *Frame, op token.Token, a, b Value, resT type
 			return BoolV{T: boolT(op == token.EQL)}
 		}
 	case PtrV:
-		// pointer compared with nil: interior pointers are never nil except PNil (NilV)
+		// pointer compared with nil: pointers formed by address-of are never nil; a *nodeRef that a
+		// callee under contract returned (findChild) may be
 		if _, ok := b.(NilV); ok {
-			return BoolV{T: boolT(op == token.NEQ)}
+			isNil := ptrIsNil(s, x)
+			if op == token.NEQ {
+				return BoolV{T: Not(isNil)}
+			}
+			return BoolV{T: isNil}
 		}
 		if y, ok := b.(PtrV); ok && x.Kind == y.Kind && (x.Kind == PSlot || x.Kind == PByte) {
 			e := And(Eq(x.Obj, y.Obj), Eq(x.Idx, y.Idx))
@@ -522,6 +527,10 @@ func (ex *Exec) unop(s *State, fr *Frame, x *ssa.UnOp) Value {
 	v := ex.val(fr, x.X)
 	switch x.Op {
 	case token.MUL: // load
+		ex.nilCheckPtr(s, fr, v, x)
+		if s.dead {
+			return nil
+		}
 		return ex.load(s, fr, v, x.Type(), x.Pos(), x)
 	case token.NOT:
 		return BoolV{T: Not(v.(BoolV).T)}
@@ -782,4 +791,38 @@ func (ex *Exec) layoutByName(n string) *StructLayout {
 // layoutClass: leaf types with identical memory layout share a class id.
 func (ex *Exec) layoutClass(l *StructLayout, t types.Type) int {
 	return l.TypeID
+}
+
+// ptrIsNil: nil-ness of an interior pointer. Slot pointers returned by callees under contract are
+// nullable (the object component is null for a nil pointer); every other pointer shape comes from
+// an address-of and is known non-nil.
+func ptrIsNil(s *State, p PtrV) Term {
+	if p.Kind != PSlot || p.Obj.S == "" {
+		return False
+	}
+	if s.neq[p.Obj.S+"|null"] || isFreshSym(p.Obj.S) {
+		return False
+	}
+	if p.Obj.S == "null" {
+		return True
+	}
+	return Eq(p.Obj, Null)
+}
+
+// nilCheckPtr: dereferencing a nullable slot pointer (see ptrIsNil) carries a nil obligation.
+func (ex *Exec) nilCheckPtr(s *State, fr *Frame, v Value, at ssa.Instruction) {
+	p, ok := v.(PtrV)
+	if !ok {
+		return
+	}
+	isNil := ptrIsNil(s, p)
+	if isNil.IsFalse() {
+		return
+	}
+	ex.emit(s, "safety", ex.obName(fr, "nil", at), Not(isNil), at.Pos(), "nil pointer dereference (*nodeRef returned by a callee)")
+	if isNil.IsTrue() {
+		s.dead = true
+		return
+	}
+	s.assume(Not(isNil))
 }
